@@ -1515,10 +1515,13 @@ fn c13(seed: u64, case: u64, out: &Out) {
     let others = rng.usize(3, 12);
     let workers = if phase == 0 || phase == 4 { 1 } else if phase >= 2 { rng.usize(2, 3) } else { rng.usize(1, 3) };
     let victim_suspended = phase == 4 && rng.chance(1, 2);
-    out.begin(case, jobj! {"target_phase" => ["queued", "running", "suspended (delay)", "running, and it yields the thread to another task between the canceller's lookup and its signal (forced through the pause hook)",
+    // every other "queued" case has two event loops: the cancelled task sits in the queue of the loop whose only worker is busy and is
+    // taken over (stolen and discarded) by the other loop, while the waiter is already blocked on the loop the task was submitted to
+    let two_loops = phase == 0 && (case / 5) % 2 == 1;
+    out.begin(case, jobj! {"event_loops" => if two_loops {2} else {1}, "target_phase" => ["queued", "running", "suspended (delay)", "running, and it yields the thread to another task between the canceller's lookup and its signal (forced through the pause hook)",
         "finished: the target was detached (handle dropped) and ran to completion, the cancel arrives while its former worker runs or is parked in another task"][phase as usize],
         "other_tasks" => others, "pool_max_size" => workers});
-    init(1, workers, 0, 0);
+    init(if two_loops { 2 } else { 1 }, workers, 0, 0);
     C13_EVENTS.lock().unwrap().clear();
     let stamp = |uid: usize, what: &'static str| C13_EVENTS.lock().unwrap().push((uid, what, mono_ns()));
     let release = Arc::new(AtomicBool::new(false));
@@ -1551,6 +1554,21 @@ fn c13(seed: u64, case: u64, out: &Out) {
         }, None, Some(-10));
         handles.push((0, h));
         std::thread::sleep(Duration::from_millis(15));
+        if two_loops {
+            // goes to the other loop (submissions alternate) and keeps a worker alive there for 25 ms; when it is done that worker looks for
+            // work, finds nothing of its own and steals from the first loop
+            let h = EventLoops::submit_task(None, move |_| {
+                stamp(9000, "start");
+                let t = Instant::now();
+                while t.elapsed() < Duration::from_millis(25) {
+                    std::hint::spin_loop();
+                }
+                stamp(9000, "end");
+                Some(9000)
+            }, None, Some(-10));
+            handles.push((9000, h));
+            std::thread::sleep(Duration::from_millis(2));
+        }
     }
     let rel = release.clone();
     let th = EventLoops::submit_task(None, move |_| {
@@ -1585,6 +1603,15 @@ fn c13(seed: u64, case: u64, out: &Out) {
     }, None, Some(0));
     let target_id = th.id().unwrap_or(0);
     let mut th = Some(th);
+    let mut early: Option<(String, u64, bool)> = None;
+    if two_loops {
+        // cancel at once (the task is queued behind the blocker) and block in the join before the other loop gets to the task
+        let not_started = !C13_EVENTS.lock().unwrap().iter().any(|e| e.0 == target_uid && e.1 == "start");
+        EventLoops::try_cancel_task(target_id);
+        let tj0 = Instant::now();
+        let tr = th.as_ref().map(|h| h.timeout_join(Duration::from_secs(3)));
+        early = Some((format!("{tr:?}"), tj0.elapsed().as_millis() as u64, not_started));
+    }
     if phase == 4 {
         // detach the target before it has run
         drop(th.take());
@@ -1624,6 +1651,9 @@ fn c13(seed: u64, case: u64, out: &Out) {
     let t0 = Instant::now();
     let mut cancel_phase_ok = true;
     match phase {
+        0 if two_loops => {
+            cancel_phase_ok = early.as_ref().is_some_and(|e| e.2);
+        }
         0 => {
             if started(target_uid) {
                 cancel_phase_ok = false;
@@ -1692,8 +1722,13 @@ fn c13(seed: u64, case: u64, out: &Out) {
         }
     }
     let tj0 = Instant::now();
-    let tr = th.as_ref().map(|h| h.timeout_join(Duration::from_secs(3)));
-    let tj = tj0.elapsed().as_millis() as u64;
+    let (tr, tj) = match &early {
+        Some((r, ms, _)) => (r.clone(), *ms),
+        None => {
+            let r = th.as_ref().map(|h| h.timeout_join(Duration::from_secs(3)));
+            (format!("{r:?}"), tj0.elapsed().as_millis() as u64)
+        }
+    };
     if phase == 0 && cancel_phase_ok {
         if started(target_uid) {
             viol = viol.or(Some(("task-cancelled-before-start-ran-anyway".into(), "the target was cancelled while queued but it started".into())));
@@ -1702,9 +1737,9 @@ fn c13(seed: u64, case: u64, out: &Out) {
         }
     }
     let evs = C13_EVENTS.lock().unwrap().clone();
-    let obs = jobj! {"events" => evs.len(), "target_started" => started(target_uid), "target_ended" => ended(target_uid), "target_join" => format!("{tr:?}"), "target_join_ms" => tj,
+    let obs = jobj! {"events" => evs.len(), "target_started" => started(target_uid), "target_ended" => ended(target_uid), "target_join" => tr.clone(), "target_join_ms" => tj,
         "cancel_issued_in_intended_phase" => cancel_phase_ok};
-    let fp = format!("{phase}|{others}|{workers}");
+    let fp = format!("{phase}|{others}|{workers}|{two_loops}");
     std::mem::forget(handles);
     std::mem::forget(th);
     if !cancel_phase_ok {
